@@ -194,8 +194,11 @@ def judge_import_segment(ctx, onset_s, offset_s, onset_sample, offset_sample, la
     try:
         seg = crowsetta.Segment.from_keyword(label=label, onset_s=onset_s, offset_s=offset_s, onset_sample=onset_sample, offset_sample=offset_sample)
     except Exception:
-        ctx.ood("dependency_precondition:segment")
-        return
+        try:
+            seg = crowsetta.Segment(label=label, onset_s=onset_s, offset_s=offset_s, onset_sample=onset_sample, offset_sample=offset_sample)
+        except Exception:
+            ctx.ood("dependency_precondition:segment")
+            return
     rec = _rec(sr, te)
     ctx.mon("import_segment")
     try:
@@ -555,6 +558,19 @@ def run(ctx):
                 s0 = rng.randrange(0, 10 ** 6); s1 = s0 + rng.randrange(1, 10 ** 5)
                 ctx.case(("import_segment", "samples", f"te{te}", adjust), {"kind": "import_segment", "onset_sample": s0, "offset_sample": s1, "sr": sr, "te": te, "adjust": adjust, "label": label}, nontrivial=te != 1)
                 judge_import_segment(ctx, None, None, s0, s1, label, sr, te, adjust)
+            # the presence matrix: each end given in seconds, as a sample index, or both (seconds win when present;
+            # the two need not agree), independently of the other end
+            on_how, off_how = rng.choice(["s", "n", "both"]), rng.choice(["s", "n", "both"])
+            if (on_how, off_how) not in (("s", "s"), ("n", "n")):
+                fsr = sr / te
+                a = rng.choice([0.0, 0.25003, rng.uniform(0, 50)]); b = a + rng.choice([0.001, 0.25, rng.uniform(0.01, 20)])
+                s0 = int(a * fsr) + rng.choice([0, 0, 3, 1000]); s1 = max(s0 + 1, int(b * fsr) + rng.choice([0, 0, 5, 1000]))
+                args = dict(onset_s=a if on_how != "n" else None, offset_s=b if off_how != "n" else None,
+                            onset_sample=s0 if on_how != "s" else None, offset_sample=s1 if off_how != "s" else None)
+                if args["onset_s"] is None and args["offset_s"] is not None and s0 / fsr / (te if adjust else 1) > b / (te if adjust else 1):
+                    args["onset_sample"] = s0 = 0
+                ctx.case(("import_segment", f"onset:{on_how}", f"offset:{off_how}", f"te{te}", adjust), dict(args, kind="import_segment", sr=sr, te=te, adjust=adjust, label=label))
+                judge_import_segment(ctx, args["onset_s"], args["offset_s"], args["onset_sample"], args["offset_sample"], label, sr, te, adjust)
         else:
             a = rng.uniform(0, 100); b = a + rng.uniform(0.001, 10); lo = rng.uniform(0, 40000); hi = lo + rng.uniform(1, 50000)
             ctx.case(("import_bbox", f"te{te}", adjust), {"kind": "import_bbox", "onset": a, "offset": b, "low": lo, "high": hi, "sr": sr, "te": te, "adjust": adjust, "label": label}, nontrivial=te != 1)
